@@ -1,5 +1,6 @@
 from typing import Any
 
+from statham.schema.constants import NotPassed
 from statham.schema.exceptions import ValidationError
 from statham.schema.validation.base import Validator
 
@@ -16,6 +17,14 @@ class Required(Validator):
         required = list(getattr(element, "required", None) or [])
         properties = getattr(element, "properties", None)
         if properties:
+            # Properties which declare a default may be omitted, however
+            # their requirement was declared.
+            defaulted = [
+                prop.source or name
+                for name, prop in properties.items()
+                if not isinstance(prop.element.default, NotPassed)
+            ]
+            required = [name for name in required if name not in defaulted]
             required += properties.required
         if not required:
             return None
